@@ -45,6 +45,7 @@ package quicvarint
 //@   ensures  [len]    len(result) == len(b) + vlen(i)
 //@   ensures  [prefix] forall(k, 0, len(b), result[k] == old(b[k]))
 //@   ensures  [array]  samearray(result, b) || isfresh(result)
+//@   ensures  [in-place] implies(len(b) + vlen(i) <= cap(b), samearray(result, b) && cap(result) == cap(b))
 //@   ensures  [bv:b1]     implies(i <= 63, result[len(b)] == uint8(i))
 //@   ensures  [bv:b2]     implies(i > 63 && i <= 16383, result[len(b)] == uint8(i>>8)|0x40 && result[len(b)+1] == uint8(i))
 //@   ensures  [bv:b4]     implies(i > 16383 && i <= 1073741823, result[len(b)] == uint8(i>>24)|0x80 && result[len(b)+1] == uint8(i>>16) && result[len(b)+2] == uint8(i>>8) && result[len(b)+3] == uint8(i))
@@ -70,17 +71,20 @@ package quicvarint
 //@   panics when (length != 1 && length != 2 && length != 4 && length != 8) || i > 4611686018427387903 || vlen(i) > length
 //@   ensures  [len] len(result) == len(b) + length
 //@   ensures  [array] samearray(result, b) || isfresh(result)
+//@   ensures  [in-place] implies(len(b) + length <= cap(b), samearray(result, b) && cap(result) == cap(b))
 //@   modifies b[*]
 //@ loop AppendWithLen #0
 //@   invariant 0 <= iter && iter < length - l - 1
 //@   invariant len(b) == len(old(b)) + 1 + iter
 //@   invariant samearray(b, old(b)) || isfresh(b)
+//@   invariant implies(len(old(b)) + length <= cap(old(b)), samearray(b, old(b)) && cap(b) == cap(old(b)))
 //@   invariant l == vlen(i) && l < length && (length == 2 || length == 4 || length == 8) && i <= 4611686018427387903
 //@   modifies old(b)[*]
 //@ loop AppendWithLen #1
 //@   invariant 0 <= iter && iter < l
 //@   invariant len(b) == len(old(b)) + length - l + iter
 //@   invariant samearray(b, old(b)) || isfresh(b)
+//@   invariant implies(len(old(b)) + length <= cap(old(b)), samearray(b, old(b)) && cap(b) == cap(old(b)))
 //@   invariant l == vlen(i) && l < length && (length == 2 || length == 4 || length == 8)
 //@   modifies old(b)[*]
 
